@@ -28,7 +28,18 @@ def make_request(p, cycle_k=5):
         n, keys = 4, None
     except RecursionError:
         n, keys = 4, None
-    idx, ks = G.probe_points(min(n, 40), list(keys) if keys else [])
+    # probe every key of every dict source of the pipeline too (a selection must not answer for keys it dropped)
+    src_keys = []
+
+    def walk(q):
+        if q['op'] == 'dict':
+            src_keys.extend(k for k, _ in q['kvs'])
+        if 'p' in q:
+            walk(q['p'])
+        for r in q.get('ps', []):
+            walk(r)
+    walk(p)
+    idx, ks = G.probe_points(min(n, 40), list(dict.fromkeys((list(keys) if keys else []) + src_keys))[:30])
     return {'fam': 'pipe', 'p': p, 'idx': idx, 'keys': ks, 'cycle_k': cycle_k}
 
 
